@@ -72,14 +72,18 @@ def execute(prog, budget, harness):
             box.ex(b'NEW')
             box.enter(lines)
             out = box.ex(direct, budget)
-        return out, box.stepper.break_hit, box.stepper.boundaries
+        broke, boundaries = box.stepper.break_hit, box.stepper.boundaries
+        if not broke:
+            for text in G.after_texts(prog):
+                out += box.ex(text, budget)
+        return out, broke, boundaries
 
 
 def run_and_judge(prog, budget, res, harness, prefix='', nontrivial=None, per_code=True, rekey=None):
     """Run, compare with R-CTRL, report into res. Returns the Verdict (or None after an internal error)."""
     lines, direct = G.to_basic(prog)
     case = {'lines': lines, 'direct': direct, 'prog': {'lines': prog['lines'], 'direct': prog.get('direct'),
-                                                       'indents': prog.get('indents'), 'sep': prog.get('sep')}}
+                                                       'indents': prog.get('indents'), 'sep': prog.get('sep'), 'after': prog.get('after')}}
     key = b'\n'.join(lines) + b'\n' + (direct or b'')
     try:
         out, broke, boundaries = execute(prog, budget, harness)
@@ -87,6 +91,9 @@ def run_and_judge(prog, budget, res, harness, prefix='', nontrivial=None, per_co
         res.case(key)
         res.violation(e.key, str(e), case)
         return None
+    if broke and prog.get('after'):
+        prog = dict(prog)
+        prog['after'] = None
     v = M.judge(prog, out, broke, budget)
     m = v.machine
     if v.status == 'discard':
@@ -112,7 +119,7 @@ def run_and_judge(prog, budget, res, harness, prefix='', nontrivial=None, per_co
         else:
             res.count('ended_by_defined_error_code' if m.done[1] in M.MESSAGES else 'ended_by_undefined_error_code')
         # informational: the reference's step count mirrors the statement boundaries of the implementation
-        if v.status == 'ok' and not prog.get('direct'):
+        if v.status == 'ok' and not prog.get('direct') and not prog.get('after'):
             want = m.steps + (2 if m.done[0] == 'end' else 1)
             res.count('steps_equal_boundaries' if boundaries == want else 'steps_differ_from_boundaries')
     if m.oob_seen:
